@@ -155,6 +155,7 @@ package ch
 //@   requires c != nil && ctx != nil && c.writer != nil && wRI(c.writer)
 //@   modifies all(c.writer), all(input), all(ctx), all(c.compressor)
 //@   ensures wRI(c.writer) {writer-invariant-kept}
+//@   ensures c.compression != 0 ==> len(c.writer.vec) == old(len(c.writer.vec)) [C09] {a-compressed-block-is-copied-into-the-staging-buffer-never-chained-by-reference}
 
 //@ contract (c *Client) encodeBlankBlock(ctx) (err) props(C02,C09)
 //@   requires c != nil && ctx != nil && c.writer != nil && wRI(c.writer)
@@ -176,6 +177,12 @@ package ch
 //@   assert len(c.writer.vec) == 0 && c.writer.bufOffset == 0 && len(c.writer.buf.Buf) == 0 {block-flushed-before-the-callback-runs-again}
 //@ callsite encodeBlankBlock
 //@   assert c.blanks == old(c.blanks) {terminator-is-the-last-thing-sent}
+//@ -- end of input is recognised through errors.Is (so a wrapped io.EOF counts), at the initial fetch
+//@ -- and after every round
+//@ callsite errors.Is#1
+//@   assert true {initial-fetch-recognises-wrapped-EOF}
+//@ callsite errors.Is#2
+//@   assert true {every-round-recognises-wrapped-EOF}
 //@ loop 0 (rangeindex)
 //@   modifies all(info), all(q.Input)
 //@   invariant c.blanks == old(c.blanks) && wRI(c.writer) && -1 <= rangeindex && rangeindex < len(info)
